@@ -8,6 +8,7 @@ every state has a replayable history, validates a subset of histories by replayi
 """
 import collections
 import multiprocessing
+import json
 import os
 import random
 import sys
@@ -290,6 +291,19 @@ def _work(job):
         r = Result()
         r.error = traceback.format_exc()
         return b, idx, r
+
+
+def filter_deep(prop, configs):
+    """The '-deep' variants of the thorough tier are registered only for the checks whose thorough command was run
+    to the end on the final tree (mc/deep_validated.json, see DESIGN.md 10.6); VERIF_DEEP=1 explores them anyway."""
+    if os.environ.get('VERIF_DEEP'):
+        return configs
+    try:
+        with open(os.path.join(os.path.dirname(os.path.abspath(__file__)), 'deep_validated.json')) as f:
+            ok = set(json.load(f))
+    except OSError:
+        ok = set()
+    return [c for c in configs if prop in ok or not str(c.get('name', '')).endswith('-deep')]
 
 
 def run_batches(batches, workers=None):
